@@ -60,3 +60,28 @@ verus! {
 pub assume_specification [std::time::Duration::checked_add] (a: std::time::Duration, b: std::time::Duration) -> (r: Option<std::time::Duration>)
     ensures match r { Some(d) => dur(d) == dur(a) + dur(b), None => dur(a) + dur(b) > DUR_MAX() };
 }
+verus! {
+// std::time::Duration::ZERO / MAX (rule T-CONST-STD: associated constants of std types are read through a function)
+#[verifier::external_body]
+pub fn duration_zero() -> (d: std::time::Duration) ensures dur(d) == 0 { std::time::Duration::ZERO }
+#[verifier::external_body]
+pub fn duration_max() -> (d: std::time::Duration) ensures dur(d) == DUR_MAX() { std::time::Duration::MAX }
+pub assume_specification [std::time::Duration::from_micros] (s: u64) -> (r: std::time::Duration)
+    ensures dur(r) == (s as nat) * 1_000;
+pub assume_specification [std::time::Duration::from_nanos] (s: u64) -> (r: std::time::Duration)
+    ensures dur(r) == (s as nat);
+pub assume_specification [std::time::Duration::as_millis] (d: &std::time::Duration) -> (r: u128)
+    ensures r as nat == dur(*d) / 1_000_000;
+pub assume_specification [std::time::Duration::as_nanos] (d: &std::time::Duration) -> (r: u128)
+    ensures r as nat == dur(*d);
+pub assume_specification [std::time::Duration::subsec_nanos] (d: &std::time::Duration) -> (r: u32)
+    ensures r as nat == dur(*d) % 1_000_000_000;
+pub assume_specification [std::time::Duration::checked_sub] (a: std::time::Duration, b: std::time::Duration) -> (r: Option<std::time::Duration>)
+    ensures match r { Some(d) => dur(a) >= dur(b) && dur(d) == dur(a) - dur(b), None => dur(a) < dur(b) };
+pub assume_specification [std::time::Duration::saturating_add] (a: std::time::Duration, b: std::time::Duration) -> (r: std::time::Duration)
+    ensures dur(r) == (if dur(a) + dur(b) > DUR_MAX() { DUR_MAX() } else { dur(a) + dur(b) });
+pub assume_specification [std::time::Duration::checked_mul] (a: std::time::Duration, b: u32) -> (r: Option<std::time::Duration>)
+    ensures match r { Some(d) => dur(d) == dur(a) * (b as nat), None => dur(a) * (b as nat) > DUR_MAX() };
+pub assume_specification [std::time::Duration::saturating_mul] (a: std::time::Duration, b: u32) -> (r: std::time::Duration)
+    ensures dur(r) == (if dur(a) * (b as nat) > DUR_MAX() { DUR_MAX() } else { dur(a) * (b as nat) });
+}
